@@ -54,6 +54,8 @@ type (
 	Slice struct{ Lo, Hi int }
 	// Ptr is &data[Pos].
 	Ptr struct{ Pos int }
+	// Tuple is the result of a helper with several results.
+	Tuple struct{ Vals []Val }
 	// Top is any value.
 	Top struct{}
 )
@@ -515,6 +517,11 @@ func flip(op token.Token) token.Token {
 
 func (e *Explorer) eval(st *state, v ssa.Value) Val {
 	switch t := v.(type) {
+	case *ssa.Extract:
+		if tup, ok := e.val(st, t.Tuple).(Tuple); ok && t.Index < len(tup.Vals) {
+			return tup.Vals[t.Index]
+		}
+		return Top{}
 	case *ssa.Call:
 		if bi, ok := t.Call.Value.(*ssa.Builtin); ok && bi.Name() == "len" && len(t.Call.Args) == 1 {
 			switch a := e.val(st, t.Call.Args[0]).(type) {
@@ -867,11 +874,16 @@ func (e *Explorer) evalHelper(st *state, c *ssa.Call) Val {
 		return Top{}
 	}
 	res := callee.Signature.Results()
-	if res.Len() != 1 || len(callee.Params) != len(c.Call.Args) {
+	if res.Len() < 1 || res.Len() > 3 || len(callee.Params) != len(c.Call.Args) {
 		return Top{}
 	}
-	if _, _, ok := intType(res.At(0).Type()); !ok {
-		return Top{}
+	isBool := make([]bool, res.Len())
+	for i := 0; i < res.Len(); i++ {
+		if b, ok := res.At(i).Type().Underlying().(*types.Basic); ok && b.Kind() == types.Bool {
+			isBool[i] = true
+		} else if _, _, ok := intType(res.At(i).Type()); !ok {
+			return Top{}
+		}
 	}
 	pos := -1
 	args := make([]Sum, len(c.Call.Args))
@@ -891,7 +903,8 @@ func (e *Explorer) evalHelper(st *state, c *ssa.Call) Val {
 		}
 		args[i] = sv
 	}
-	evalAt := func(b int) (int64, bool) {
+	// one evaluation on constants: the integer results and the boolean results
+	evalAt := func(b int) ([]int64, []bool, bool) {
 		sub := &Explorer{Fn: callee, Budget: 20000, Table: e.Table, Params: map[*ssa.Parameter]Val{}, depth: e.depth + 1}
 		for i, p := range callee.Params {
 			k := args[i].K
@@ -901,33 +914,75 @@ func (e *Explorer) evalHelper(st *state, c *ssa.Call) Val {
 			sub.Params[p] = konst(k)
 		}
 		sub.run(&state{sets: map[int]lts.ByteSet{}, lenMin: 0, lenMax: -1, env: map[ssa.Value]Val{}}, callee.Blocks[0], nil)
-		if sub.err != nil || len(sub.out) != 1 || len(sub.out[0].Results) != 1 {
-			return 0, false
+		if sub.err != nil || len(sub.out) != 1 || len(sub.out[0].Results) != res.Len() {
+			return nil, nil, false
 		}
-		r, ok := sub.out[0].Results[0].(Sum)
-		if !ok || len(r.T) != 0 {
-			return 0, false
+		ints, bools := make([]int64, res.Len()), make([]bool, res.Len())
+		for i, rv := range sub.out[0].Results {
+			if isBool[i] {
+				bv, ok := rv.(Bool)
+				if !ok {
+					return nil, nil, false
+				}
+				bools[i] = bv.B
+			} else {
+				sv, ok := rv.(Sum)
+				if !ok || len(sv.T) != 0 {
+					return nil, nil, false
+				}
+				ints[i] = sv.K
+			}
 		}
-		return r.K, true
+		return ints, bools, true
 	}
+	vals := make([]Val, res.Len())
 	if pos < 0 {
-		k, ok := evalAt(-1)
+		ints, bools, ok := evalAt(-1)
 		if !ok {
 			return Top{}
 		}
-		return konst(k)
-	}
-	var tab [256]int64
-	cur := st.setAt(pos)
-	for b := 0; b < 256; b++ {
-		if !cur.Has(byte(b)) {
-			continue
+		for i := range vals {
+			if isBool[i] {
+				vals[i] = Bool{bools[i]}
+			} else {
+				vals[i] = konst(ints[i])
+			}
 		}
-		k, ok := evalAt(b)
-		if !ok {
-			return Top{}
+	} else {
+		tabs := make([]*[256]int64, res.Len())
+		sets := make([]lts.ByteSet, res.Len())
+		for i := range tabs {
+			tabs[i] = &[256]int64{}
 		}
-		tab[b] = k
+		cur := st.setAt(pos)
+		for b := 0; b < 256; b++ {
+			if !cur.Has(byte(b)) {
+				continue
+			}
+			ints, bools, ok := evalAt(b)
+			if !ok {
+				return Top{}
+			}
+			for i := range vals {
+				if isBool[i] {
+					if bools[i] {
+						sets[i] = sets[i].Or(lts.Of(byte(b)))
+					}
+				} else {
+					tabs[i][b] = ints[i]
+				}
+			}
+		}
+		for i := range vals {
+			if isBool[i] {
+				vals[i] = In{Pos: pos, Set: sets[i]}
+			} else {
+				vals[i] = Sum{T: map[int]*[256]int64{pos: tabs[i]}}
+			}
+		}
 	}
-	return Sum{T: map[int]*[256]int64{pos: &tab}}
+	if res.Len() == 1 {
+		return vals[0]
+	}
+	return Tuple{Vals: vals}
 }
